@@ -1,11 +1,11 @@
 """C03 growth: scenario `frames` — a genuinely authenticated hostile peer injecting arbitrary frames (hook H2)."""
 PROPS = {
     'C03': dict(
-        sim=[('frames', 40, 1500, [1000049, 1000167])],   # corpus: raw seeds that exhibited MAX_STREAM_DATA-beyond-limit (phantom streams)
+        sim=[('frames', 40, 1500, [1000035, 1000601])],   # corpus: raw seeds that exhibited MAX_STREAM_DATA-beyond-limit (phantom streams)
         modelled="system level (scenario frames): a real Connection as hostile but authenticated peer emits attacker-chosen frame bytes "
                  "in correctly protected Initial/Handshake/1-RTT packets (Connection::verif_inject_frames); oracles on the honest side: no panic, "
                  "bystander connection unaffected, queue sizes / opened-stream count within configuration-derived bounds after every injected datagram, bounded steps",
-        not_modelled="the frame admissibility / error-class table as a Lean model (Conn/FrameRules.lean, op frules) is not built yet: the scenario records the "
+        not_modelled="legal datagrams must not close the victim, A's workload content oracle holds on the legal prefix; NOT modelled: the frame admissibility / error-class table as a Lean model (Conn/FrameRules.lean, op frules) is not built yet: the scenario records the "
                      "request lines only with VERIF_FRULES=1; 0-RTT packets; hostile transport parameters",
     ),
 }
